@@ -278,7 +278,7 @@ class Walker:
                 if isinstance(call.func, ast.Name) and call.func.id in walker.localprocs and \
                         walker.env.get(call.func.id) == ('localproc', call.func.id):
                     st, body = walker.localprocs[call.func.id]
-                    params = [a.arg for a in st.args.args]
+                    params = [a.arg for a in st.args.args] + [a.arg for a in st.args.kwonlyargs]
                     fname = call.func.id
                 else:
                     mp = walker.method_proc(call)
@@ -299,7 +299,7 @@ class Walker:
                 for p, dflt in zip(pos[len(pos) - len(st.args.defaults):], st.args.defaults):
                     bound.setdefault(p, walker.ex(dflt))
                 for a_, dflt in zip(st.args.kwonlyargs, st.args.kw_defaults):
-                    if dflt is not None and is_method:
+                    if dflt is not None:
                         bound.setdefault(a_.arg, walker.ex(dflt))
                 if set(bound) != set(params):
                     walker.unsupported(call, f"call of local function {fname} leaves a parameter unbound")
@@ -566,7 +566,7 @@ class Walker:
         elif body and isinstance(body[-1], ast.Return) and body[-1].value is not None and \
                 not any(isinstance(n, (ast.Return, ast.Yield, ast.YieldFrom, ast.Nonlocal, ast.Global))
                         for s in body[:-1] for n in ast.walk(s)) and \
-                not st.args.vararg and not st.args.kwarg and not st.args.kwonlyargs:
+                not st.args.vararg and not st.args.kwarg:
             # statements followed by one return: replayed at every call site (see call_local_procs)
             self.localprocs[st.name] = (st, body)
             self.env[st.name] = ('localproc', st.name)
@@ -645,7 +645,11 @@ class Walker:
         if target is None or target.node is self.fi.node or getattr(target, "name", None) in self.no_inline:
             return False
         if private_only and not target.node.name.startswith("_"):
-            return False
+            # a public generator of the pinned tree is part of an interface the rules talk about (flatten(), resources(), ...);
+            # a new one is a helper like any other
+            from .canon import _anchors
+            if target.site in _anchors() or f"{target.module.rel}::{target.qual}" in _anchors():
+                return False
         if not any(isinstance(n, (ast.Yield, ast.YieldFrom)) for n in ast.walk(target.node)):
             return False
         a = target.node.args
